@@ -10,7 +10,9 @@ CUTTERS = ["(take 1)", "(take 2)", "(first)", "(first_or 9)", "(element_at 1)", 
 INTER = ["(map (add 1))", "(map_to 1)", "(filter even)", "(filter_map (add 1))", "(tap)", "(on_error_map 100)", "(skip 1)", "(skip_while (lt 1))",
          "(take_last 2)", "(skip_last 1)", "(last)", "(scan add 0)", "(default_if_empty 9)", "(distinct)", "(distinct_key (mod 2))",
          "(distinct_until_changed)", "(distinct_until_key_changed (mod 2))", "(pairwise)", "(buffer_with_count 2)", "(collect)",
-         "(start_with 8)", "(take 3)", "(ignore_elements)", "(reduce_initial add 0)", "(count)", "(sum)", "(max)", "(min)", "(average)", "(last_or 9)"]
+         "(start_with 8)", "(take 3)", "(ignore_elements)", "(reduce_initial add 0)", "(count)", "(sum)", "(max)", "(min)", "(average)", "(last_or 9)",
+         # higher-order stages that hand every item on unchanged (identity nodes in the model): the back channel has to pass through them
+         "(flat_map_of)", "(concat_map_of)", "(group_flat (mod 2))", "(group_flat id)"]
 OP2 = ["merge", "zip", "(combine_latest add)", "with_latest_from", "take_until", "skip_until", "sample", "buffer"]
 OTHER_SCRIPTS = ["", "(n 7)", "(n 7) (n 8)", "(n 7) c", "c", "(e 3)", "(n 7) (n 8) (n 9) c"]
 
@@ -140,9 +142,10 @@ def run(tier, seed, replay=None):
                  "the hook scheduler (items pulled, whether its task has finished), interval on the hook scheduler under a virtual clock (whether its "
                  "task is still alive after the last tick); positions: main input, and either input of each of the 8 two-input operators with the other "
                  "input a create() script (iterator) or a subject driven by the case (interval); chains: each of 9 cutting operators alone, with each "
-                 "of 30 intermediates before it and after it, and random chains of depth 3-5; plus chains without a cutter; local and _threads forms; "
+                 "of 34 intermediates (the single-input operators, and flat_map / concat_map over of(v) and group_by followed by flat_map as higher-order "
+                 "stages) before it and after it, and random chains of depth 3-5; plus chains without a cutter; local and _threads forms; "
                  "judged by the specification (the model with every observer forwarding: pulls / liveness / trace must agree exactly)")
     rep.assumptions = ["the table of `fn is_finished` bodies is regenerated from /repo/src by tools/gen_isfinished.py (syntactic classification) on every run",
-                       "throttle / debounce / delay observers and the flattening operators forward is_finished too (see the generated table) but are not "
-                       "placed between producer and cutter by the dynamic cases"]
+                       "throttle / debounce / delay / observe_on observers forward is_finished too (see the generated table) but are not placed between "
+                       "producer and cutter by the dynamic cases: behind them the end of the stream happens in a later task, after a synchronous producer has run"]
     return rep.finish()
